@@ -360,6 +360,19 @@ func framer(args []string) {
 			s := gen.Cat(j1, a, j2, b, gen.Junk(rng, rng.Intn(4), 0))
 			victimize(s, [][2]int{{len(j1), len(j1) + len(a)}, {len(j1) + len(a) + len(j2), len(j1) + len(a) + len(j2) + len(b)}}, n, fmt.Sprintf("junk%d", n))
 		}
+		// long runs of other data in front of a frame, lengths around the powers of two (anything that limits or
+		// chunks a run internally has its off-by-one at one of these)
+		if !corrupt {
+			longs := []int{255, 256, 257, 1023, 1024, 1025, 4095, 4096, 4097, 8191, 8192}
+			if thorough {
+				longs = append(longs, 2047, 2048, 2049, 8193, 16383, 16384, 16385, 32767, 32768, 65535, 65536, 65537)
+			}
+			for _, L := range longs {
+				a := gen.Frame(rng, gen.TypeClass(rng, L), 1+rng.Intn(30), 0)
+				b := gen.Frame(rng, 1230, 6, 0)
+				run(gen.Cat(gen.Junk(rng, L, L%3), a, b), fmt.Sprintf("junk%d then frames", L))
+			}
+		}
 		// the stream ENDS with a run of other data of exactly 1, 2, 3 bytes (after a frame, after a CRC failure, alone)
 		for n := 1; n <= 3; n++ {
 			a := gen.Frame(rng, gen.TypeClass(rng, n), 1+rng.Intn(20), 0)
